@@ -660,11 +660,11 @@ pub fn run(args: &Args) -> i32 {
         "every value of each bounded family is generated exactly once (varints below the bound + 2^k±16; frame kind x every payload length 0..4096 x 3 contents; stream-header kinds x boundary ids; builder subsets x boundary values; header singletons/pairs over the name/value pools; datagram ids x lengths); a case is non-trivial when it exercises encode and all decode paths, which all do",
     );
     rep.assume("refcodec (written from RFC 9000/9114/9204/7541/9297) is the oracle for byte-exact encodings");
-    let thorough = args.tier == Tier::Thorough;
+    let thorough = args.tier >= Tier::Thorough;
     let workers = args.workers;
 
     // (a) varints
-    let limit: u64 = if thorough { 1 << 30 } else { 1 << 20 };
+    let limit: u64 = if args.tier >= Tier::Deep { 1 << 32 } else if thorough { 1 << 30 } else { 1 << 20 };
     let block: u64 = 1 << 14;
     let nblocks = (limit / block) as usize;
     vx::par_for(nblocks, workers, 1, |_| (), |_, b| {
